@@ -257,17 +257,25 @@ def run(rep, facts, tier):
                     ev, fx.fns[ev].j['span'])
     # eval = compile + run also when something was compiled before and has not run yet: the context eval opens starts at the
     # pending instruction (run() would execute it first), not at the end of the code
-    co = fx.need('state::State::context_open')
+    co = inline.thread_fn(fx.need('state::State::context_open'))     # `let pending = a && b && c; .. if pending {..}` read as the nested tests
     from ..rules.c11 import guards_of as _g11
+    from ..core import op_place
     pend = False
     for bb in co.reachable_blocks():
         for st in co.blocks[bb]['stmts']:
-            if st['k'] != 'assign' or not any(isinstance(x, dict) and x.get('f') == 'ip' for x in st['lhs']['p']):
+            # a read of the enclosing context's ip - into a field assignment or into a local that ends up in the Context literal
+            if st['k'] != 'assign' or st['rv']['k'] != 'use':
                 continue
-            v = expr_str(co.expr_of_rvalue(st['rv'], 0, frozenset()), -12)
-            if 'ctx.ip' not in v:
+            pl = op_place(st['rv']['o'])
+            names = [x.get('f') for x in (pl or {}).get('p', []) if isinstance(x, dict)]
+            if not (pl and 'ctx' in names and names[-1:] == ['ip']):
                 continue
             for (_, e, side) in _g11(co, bb):
+                # `a && b && c` evaluates to phi(false | c): true only if c is
+                if isinstance(e, tuple) and e[0] == 'phi':
+                    alts = [x for x in e[1] if not (isinstance(x, tuple) and x[0] == 'const' and isinstance(x[1], dict) and x[1].get('v') in (0, False))]
+                    if len(alts) == 1:
+                        e = alts[0]
                 se = expr_str(e, -12)
                 if side and se.startswith('Lt(') and 'ctx.ip' in se and 'code' in se:
                     pend = True
